@@ -6,10 +6,14 @@ open Gen Spec
 theorem contributing_open_correct (ct fr : Nat) (wS wC : Int)
     (hct : ct = 1 ∨ ct = 2 ∨ ct = 3) (hfr : fr = 1 ∨ fr = 2 ∨ fr = 3) :
     clipperBase_isContributingOpen (mkEng ct fr) (mkOpenEdge wS wC) = keepOpen ct fr wS wC := by
-  sorry
+  rcases hct with rfl | rfl | rfl <;> rcases hfr with rfl | rfl | rfl <;>
+    simp [clipperBase_isContributingOpen, mkEng, mkOpenEdge, keepOpen, filled,
+      C_Positive, C_Negative, C_Intersection, C_Union, Id.run, pure] <;> grind
 
 theorem contributing_open_correct_evenodd (ct : Nat) (wS wC : Int) (hct : ct = 1 ∨ ct = 2 ∨ ct = 3) :
     clipperBase_isContributingOpen (mkEng ct 0) (mkOpenEdge (wS % 2) (wC % 2)) = keepOpen ct 0 wS wC := by
-  sorry
+  rcases hct with rfl | rfl | rfl <;>
+    simp [clipperBase_isContributingOpen, mkEng, mkOpenEdge, keepOpen, filled,
+      C_Positive, C_Negative, C_Intersection, C_Union, Id.run, pure] <;> grind
 
 end Proofs.C09
